@@ -1,7 +1,7 @@
 """C08 (partial): every lock-free free list is ABA-safe by version tag or by lock (R-ABA); tagged
 lists advance the tag on push as well; no ownership decision is a non-atomic check-then-act (R-ATOM)."""
 from vlib import fixtures
-from rules import sync
+from rules import sync, release, order
 from vlib.mir import Fn
 
 FILES = ['src/memory/secure_pool.rs', 'src/memory/lockfree_pool.rs', 'src/memory/five_level_pool.rs',
@@ -10,7 +10,7 @@ FILES = ['src/memory/secure_pool.rs', 'src/memory/lockfree_pool.rs', 'src/memory
 
 def run(ctx):
     fx = ctx.facts("default")
-    fixtures.run(ctx, ['aba', 'atom', 'relink', 'locksplit'])
+    fixtures.run(ctx, ['aba', 'atom', 'relink', 'locksplit', 'release', 'order'])
     fns = []
     npop = 0
     ncas = 0
@@ -33,6 +33,16 @@ def run(ctx):
             natom += sync.check_then_act(ctx, fn)
             nsplit += sync.lock_split(ctx, fn)
             nlocks += len(sync.lock_sites(fn))
+    # a block is not written after it went back onto a free structure
+    release.run(ctx, fx, FILES)
+    ctx.floor("R-RELEASE.releases", 4)
+    # the secure pool forgets a chunk's tracking record before the chunk becomes visible to other threads
+    di = "memory::secure_pool::SecureMemoryPool::deallocate_internal"
+    if not fx.has(di):
+        from vlib.run import Broken
+        raise Broken("anchor function %s not found" % di)
+    order.precede(ctx, Fn(fx.raw(di)), r"dashmap::DashMap::<[^>]*>::remove$", r"LockFreeStack::<[^>]*>::push$|LocalCache::try_push$",
+                  "R-ORDER.untrack", "tracking record removed before the chunk is published")
     npush = sync.aba_push_tags(ctx, fns, fx=fx)
     sync.load_modify_store(ctx, fns)
     ctx.instance("R-ABA.cas_sites", ncas)
